@@ -46,6 +46,32 @@ class InfraError(Exception):
     """Infrastructure failure -> exit 2, never a VIOLATION."""
 
 
+class BindingBroken(Exception):
+    """The harness can no longer observe a piece of the implementation it is bound to (a private attribute, a private
+    function, a module layout).  The implementation may be perfectly right (a harmless refactoring), but the
+    correspondence that used the binding no longer checks: by the verdict rule (DESIGN §2.4) that is a broken
+    correspondence - searched for a failing input, reported as `no-failing-input-found` when none is found - never a
+    crash of the check."""
+
+
+def binding_error(e: BaseException) -> str | None:
+    """If `e` (raised inside HARNESS code) says that an object of the implementation no longer has the shape the
+    harness is bound to, describe the binding; else None."""
+    if isinstance(e, BindingBroken):
+        return str(e)
+    if isinstance(e, AttributeError):
+        obj = getattr(e, "obj", None)
+        mod = getattr(obj, "__module__", None) if isinstance(obj, type) or callable(obj) else type(obj).__module__
+        if isinstance(obj, type(sys)):
+            mod = obj.__name__
+        if isinstance(mod, str) and mod.split(".")[0] == "capellambse":
+            what = obj.__name__ if isinstance(obj, type(sys)) else (obj.__qualname__ if isinstance(obj, type) else type(obj).__qualname__)
+            return f"{mod}: {what} has no attribute {getattr(e, 'name', '?')!r}"
+    if isinstance(e, ImportError) and str(getattr(e, "name", "") or "").split(".")[0] == "capellambse":
+        return f"cannot import {e.name}: {e}"
+    return None
+
+
 @dataclasses.dataclass
 class Finding:
     """A concrete failing input/history against the real implementation."""
